@@ -118,6 +118,10 @@ class Tag(nodes.Node):
             evaluate.flatten(self[1], expander, variables, tmp)
             evaluate.insert_implicit_newlines(tmp)
             tmp = "".join(tmp)
+            if name.lower() in ("nowiki", "pre", "source", "syntaxhighlight", "math", "timeline"):
+                # the body of these tags is never parsed again: a region protected inside it
+                # ({{#tag:source|<nowiki>code</nowiki>}}) has to be put back now
+                tmp = expander.uniquifier.replace_uniq(tmp)
             tmp_res.append(tmp)
 
         tmp_res.append(f"</{name}>")
